@@ -33,7 +33,7 @@ def props_of(msg, plan_id):
 
 
 def prop_of(msg, plan_id):
-    if plan_id.startswith("bp") and msg.startswith("End:"):
+    if plan_id.startswith(("bp", "big")) and msg.startswith("End:"):
         return "C13"
     if plan_id.startswith("timer") and msg.startswith("End:"):
         return "C14"
@@ -83,6 +83,8 @@ def validate_traces(chk, prop, trace_path):
 def driver_prop(rec):
     key = rec["key"]
     pid = key.split(":")[-1]
+    if pid.startswith(("bp", "big")):
+        return "C13"
     if ":adv:" in key:
         return "C11"
     if pid.startswith("bp"):
